@@ -170,6 +170,84 @@ func runC03(b *mon.B) {
 		srv.Net.Forget(conn)
 	}
 
+	// ---- the server's own "bad secret" error packets are obfuscated like any other reply:
+	// a receiver holding the server's secret recovers a well-formed ERROR reply, also the
+	// second, third, ... time
+	for k := 0; k < b.N(20, 400); k++ {
+		caseNo++
+		if !b.Want(caseNo) {
+			continue
+		}
+		secret := c03Secret(r, k)
+		typ := 1 + k%3
+		conn := srv.dial(100000+k, secret)
+		h := rfc8907.Header{Major: 0xc, Minor: r.Intn(2), Type: typ, Seq: 1, Flags: 0, Session: r.U32()}
+		// a body whose length fields under-run under every layout of the type
+		seen := []byte{1, 1, 1, 1, 0xf0, 0xf0, 0xf0, 0xf0, 0xff, 0xff, 0xee, 0xee, 9, 9, 9, 9}
+		written, stray, invs, _, err := srv.step(conn, pktSpec{H: h, Clear: seen}.wire(secret))
+		srv.Net.Forget(conn)
+		if err != nil {
+			b.Inconclusive("bad-secret case: %v", err)
+			break
+		}
+		b.Eval(1)
+		b.Class("from-server/bad-secret-reply/type%d/nth=%s", typ, lenBucket(k/3))
+		if len(invs) != 0 || len(written) != 1 || stray != 0 {
+			continue // whether it is signalled at all is C19's subject
+		}
+		rh, _ := rfc8907.DecodeHeader(written[0])
+		clear := rfc8907.Obfuscate(rh, secret, written[0][12:])
+		v, cls := rfc8907.Decode(replyLayoutOf[typ], clear)
+		if cls != rfc8907.OK || v.Ints["status"] != errStatus[typ] {
+			b.Violate(caseNo, "C03/from-server/bad-secret-reply-not-recoverable", fmt.Sprintf("error packet #%d of type %d: de-obfuscating it with the connection's secret gives a body that is %s (status %#x), not a well-formed ERROR reply", k/3+1, typ, cls, v.Ints["status"]),
+				map[string]interface{}{"secret": hexs(secret), "reply": hexs(written[0])})
+		} else {
+			b.Count("bad_secret_replies_recovered", 1)
+		}
+	}
+	// ---- a reply whose first write fails: whatever reaches the wire afterwards must still be
+	// header||(body XOR pad); nothing at all is fine too
+	for k := 0; k < b.N(20, 400); k++ {
+		caseNo++
+		if !b.Want(caseNo) {
+			continue
+		}
+		secret := c03Secret(r, k+1)
+		typ := 1 + r.Intn(3)
+		conn := srv.dial(200000+k, secret)
+		fail := []error{simnet.TimeoutError(), fmt.Errorf("connection reset by peer")}[k%2]
+		conn.FailNextWrites(fail)
+		h := rfc8907.Header{Major: 0xc, Minor: r.Intn(2), Type: typ, Seq: 1 + 2*r.Intn(100), Flags: 0, Session: r.U32()}
+		rep := r.Bytes(1 + r.Intn(60))
+		srv.Plan.set(h.Session, planStep{Reply: &rawBody{B: rep}})
+		written, stray, _, st, err := srv.step(conn, pktSpec{H: h, Clear: c05Body(r, typ, 20, false)}.wire(secret))
+		if err != nil {
+			b.Inconclusive("write-fault case: %v", err)
+			break
+		}
+		b.Eval(1)
+		b.Class("from-server/first-write-fails/%d", k%2)
+		if len(written) > 0 || stray > 0 {
+			if slug, msg := checkReply(h, secret, replyKind{Name: "raw"}, rep, written, stray); slug != "" {
+				b.Violate(caseNo, "C03/from-server/after-write-fault/"+slug, "after a failed first write of the reply: "+msg, map[string]interface{}{"secret": hexs(secret), "fault": fail.Error()})
+			}
+		}
+		// the connection (if still open) keeps obfuscating correctly
+		if !st.Closed {
+			h2 := h
+			h2.Session, h2.Seq = r.U32(), 1
+			rep2 := r.Bytes(20)
+			srv.Plan.set(h2.Session, planStep{Reply: &rawBody{B: rep2}})
+			w2, s2, _, _, err := srv.step(conn, pktSpec{H: h2, Clear: c05Body(r, typ, 20, false)}.wire(secret))
+			if err == nil {
+				if slug, msg := checkReply(h2, secret, replyKind{Name: "raw"}, rep2, w2, s2); slug != "" {
+					b.Violate(caseNo, "C03/from-server/after-write-fault-next-request/"+slug, msg, nil)
+				}
+			}
+		}
+		conn.EOF()
+		srv.Net.Forget(conn)
+	}
 	// ---- Client.Send over a scripted peer
 	for k := 0; k < b.N(150, 4000); k++ {
 		caseNo++
